@@ -98,7 +98,8 @@ def bfs(ctx, factory, max_depth, max_states=None):
         msgs = sysm.check_state(st) if hasattr(sysm, "check_state") else []
         if msgs:
             acc.violation("history", "initial state %d: %s" %
-                          (i, "; ".join(msgs[:3])), {"init": i, "ops": []})
+                          (i, "; ".join(msgs[:3])),
+                          {"init": i, "ops": [], "factory": factory})
         k = sysm.key(st)
         if k not in seen:
             seen[k] = ((i, ()), 0)
@@ -141,6 +142,10 @@ def replay_history(factory, init, ops):
     """re-execute one history with all checks on; returns messages"""
     sysm = _system(factory)
     st = sysm.initial(init)
+    if hasattr(sysm, "check_state"):
+        msgs = sysm.check_state(st)
+        if msgs:
+            return msgs
     for op in ops:
         st, msgs, _ = sysm.step(st, op, check=True)
         if msgs:
